@@ -74,7 +74,20 @@ pub fn gen_case(ch: &mut Chooser) -> Case {
             d("shared-name", sym(&format!("lib{}", i))),
             dp(&gets_i, &[], vec![var("shared-name")]),
         ];
-        let mut exports = vec![(next_i, next_e), (peek_i, peek_e), (useh_i, useh_e), (leak_i, leak_e), (gets_i, gets_e)];
+        let mut exports = vec![(next_i.clone(), next_e), (peek_i.clone(), peek_e), (useh_i, useh_e), (leak_i, leak_e), (gets_i, gets_e)];
+        // one binding published under two external names (adjacent or separated in the export list)
+        match ch.below(4) {
+            0 => {
+                exports.insert(1, (next_i.clone(), format!("alias-next-l{}", i)));
+                labels.push("binding-exported-twice");
+            }
+            1 => {
+                exports.push((next_i.clone(), format!("alias-next-l{}", i)));
+                exports.push((peek_i.clone(), format!("alias-peek-l{}", i)));
+                labels.push("binding-exported-twice");
+            }
+            _ => {}
+        }
         for j in &deps {
             // uses the other library's exported procedure under its external name
             let (via_i, via_e) = nm(&format!("via{}", j));
@@ -105,7 +118,25 @@ pub fn gen_case(ch: &mut Chooser) -> Case {
         direct.push((i, "p:".to_string()));
         labels.push("two-import-sets-of-one-library");
     }
-    let mut program = vec![Form::Import(specs)];
+    // the import declarations: one form, or one form per import set, optionally with a failing declaration in between
+    // (all import declarations precede the first expression/definition: the interpreter accepts them only there)
+    let mut program = vec![];
+    if ch.chance(1, 2) {
+        program.push(Form::Import(specs));
+    } else {
+        labels.push("several-import-declarations");
+        let fail_at = if ch.chance(1, 2) { Some(1 + ch.below(specs.len())) } else { None };
+        for (k, sp) in specs.into_iter().enumerate() {
+            if fail_at == Some(k) {
+                program.push(Form::Import(vec![ImportSpec::plain("my nosuch")]));
+                labels.push("failed-import-in-history");
+            }
+            program.push(Form::Import(vec![sp]));
+        }
+        if fail_at == Some(program.len()) {
+            program.push(Form::Import(vec![ImportSpec::plain("my nosuch")]));
+        }
+    }
     // callable imported names
     let mut callable: Vec<(String, usize)> = vec![];
     for (i, prefix) in &direct {
@@ -179,10 +210,14 @@ pub fn run_case(c: &Case) -> Obs {
         if as_files {
             let d = std::env::temp_dir().join(format!("rv-c13-{}-{:?}", std::process::id(), std::thread::current().id()));
             let _ = std::fs::remove_dir_all(&d);
-            std::fs::create_dir_all(d.join("my")).unwrap();
             for (name, text) in &libs {
-                let file = name.split(' ').last().unwrap();
-                std::fs::write(d.join("my").join(format!("{}.sld", file)), text).unwrap();
+                let parts: Vec<&str> = name.split(' ').collect();
+                let mut sub = d.clone();
+                for p in &parts[..parts.len() - 1] {
+                    sub = sub.join(p);
+                }
+                std::fs::create_dir_all(&sub).unwrap();
+                std::fs::write(sub.join(format!("{}.sld", parts[parts.len() - 1])), text).unwrap();
             }
             s.it.program_directory = Some(d.clone());
             dir = Some(d);
@@ -205,7 +240,7 @@ pub fn run_case(c: &Case) -> Obs {
     })
 }
 
-fn model_machine(c: &Case, per_import: bool) -> Machine {
+pub fn model_machine(c: &Case, per_import: bool) -> Machine {
     let mut m = Machine::bare(ORDERS[0]);
     for l in &c.libs {
         m.libs.insert(l.name.clone(), l.clone());
@@ -221,7 +256,7 @@ pub fn judge(c: &Case) -> Report {
         rep.label(*l);
     }
     rep.label(if c.as_files { "files" } else { "registered" });
-    rep.nontrivial = c.labels.iter().any(|l| matches!(*l, "collision-with-internal" | "redefine-imported" | "state-through-two-paths" | "two-import-sets-of-one-library"));
+    rep.nontrivial = c.labels.iter().any(|l| matches!(*l, "collision-with-internal" | "redefine-imported" | "state-through-two-paths" | "two-import-sets-of-one-library" | "failed-import-in-history" | "binding-exported-twice"));
     let obs = run_case(c);
     rep.note = obs_text(&obs);
     match compare_machine(&c.program, &obs, model_machine(c, false)) {
@@ -244,12 +279,13 @@ pub fn run(ctx: &Ctx) {
         "random library/program pairs: 1-3 libraries (registered sources, a quarter as .sld files in a temporary program \
          directory) with exports with and without rename, an unexported helper, internal state (define + set!), a procedure \
          referring to an importer-only name, imports of each other (acyclic); an importing program (optionally importing \
-         one library twice, the second time prefixed) that calls exported procedures, defines names colliding with library \
+         one library twice, the second time prefixed; the import sets in one declaration or one declaration each, \
+         optionally with a failing declaration in between; one binding exported under two external names) that calls exported procedures, defines names colliding with library \
          internals, redefines imported names, refers to unexported names, and observes library state through several \
          paths (directly, through the prefixed import, through another library). Oracle: reference module system (one \
          instance per library per program, library environment = its imports + its definitions). Non-trivial = a name \
          collision / redefinition is exercised or state is observed through two paths.",
     );
-    let cases = ctx.tier.pick(1_500, 25_000);
+    let cases = ctx.tier.pick(4_000, 25_000);
     ctx.random("pairs", cases, 200, |ch| judge(&gen_case(ch)));
 }
